@@ -32,6 +32,10 @@ CLAIMS = {
   "For each of the 7 term kinds, all parameter values and all positions off the stated singular sets: the energy model equals the theory document's closed form (in independently written spec geometry), every one of the 6/9/12 translated gradient slots equals the exact derivative of that energy (per-slot identity tangent = gradient program, then HasDerivAt), and no other slot is written, for any index assignment inside a larger array. Gradient programs are re-translated from the Rust add_gradient bodies on every run and the proofs re-checked; the energy model and the translation are validated bit for bit against the Rust functions.",
   TB + "Hand energy model tied bitwise to the Rust energy functions. Real-number reading of f64 code. Torsion proved off the atan2 branch cut; repulsion exponent a natural number.",
   "Lean 4 proof (Mathlib: HasDerivAt, field_simp/ring identities per slot) over code re-translated each run + bitwise translation validation", "DESIGN.md §5 C02"),
+ "C03": ("proof",
+  "Over the reals, for the energy model of each of the seven term kinds and the gradient programs re-translated each run: every energy is invariant under translation of its atoms (unconditionally) and under every proper rotation (RtR = 1, det R = 1; torsion off its branch cut) — via proved invariance of dot products, cross products, distances, bond, dihedral and inversion angles; the translated gradient of every kind sums to zero over the term's atoms along each axis at every regular point (from invariance + gradient = derivative), hence for any force field; perception depends on coordinates only through the candidate lists. Explored on the real code, not proved: zero net torque, gradient covariance under rotation, float-level invariance at offsets up to 1e4 A, connectivity and force field rebuilt from moved coordinates.",
+  TB + "Torque/covariance and float-level behaviour are exploration. Real-number reading of f64 code.",
+  "Lean 4 proof (Mathlib: invariance of the energy expressions, uniqueness of derivatives for zero net force) + rigid-motion search on the real code", "DESIGN.md §5 C03"),
  "C04": ("proof",
   "PARTIAL. Proved for all answer histories on the optimiser model: Molecule::optimise changes only the coordinates (frame); a start meeting the convergence criterion is returned unchanged bit for bit; the energies the optimiser remembers are never rising; one descent step with alpha*L <= 2 does not raise an L-smooth energy (reals). NOT proved: the unconditional 'never higher' clause on UFF/RB (floating-point trajectory of a non-convex function; the optimiser is blind to the energy after five evaluations per restart) — explored on the real optimiser over generated molecules inside the stated domain, with before/after snapshots of atoms, connectivity and terms.",
   TB + "Modelled: optimiser loop (recorded-history correspondence). The energy clause is exploration only; collinear-centre NaN is a recorded known finding.",
